@@ -328,3 +328,19 @@ var KeyTypes = []reflect.Type{
 	reflect.TypeOf(uint32(0)), reflect.TypeOf(uintptr(0)), reflect.TypeOf(MyStr("")), reflect.TypeOf(MyInt(0)), reflect.TypeOf(TVS("")), reflect.TypeOf(TVI(0)),
 	reflect.TypeOf(UTS("")), reflect.TypeOf(UTI(0)), reflect.TypeOf(TV{}), reflect.TypeOf((*TP)(nil)),
 }
+
+// Marshalers of kind uint8: a slice of them is not a base64 byte string.
+// TPB: pointer receiver MarshalText; MPB: pointer receiver MarshalJSON; TVB: value receiver MarshalText.
+type TPB uint8
+
+func (t *TPB) MarshalText() ([]byte, error) { return []byte("PT:" + strconv.Itoa(int(*t))), nil }
+
+type MPB uint8
+
+func (t *MPB) MarshalJSON() ([]byte, error) {
+	return []byte(`{"mpb":` + strconv.Itoa(int(*t)) + `}`), nil
+}
+
+type TVB uint8
+
+func (t TVB) MarshalText() ([]byte, error) { return []byte("VT:" + strconv.Itoa(int(t))), nil }
